@@ -26,7 +26,9 @@ func init() {
 			"S5: WriteUint/WriteBytes/MarshalBytes encode the length through the one varint encoder followed by the body; the size functions are WritableUintSize(len)+len; the scratch array holds the longest varint; string forms go through the cast, a shared generic implementation, or the same formula. " +
 			"S6: every exit reachable with newBuf=true returns a fresh copy (container.SliceCopy, or make+copy), and SliceCopy's result is a freshly made slice. " +
 			"S7: every Marshal* store into the destination (also in a private function the buffer is handed to) is dominated by a length guard on the index/window and every copy has a destination of exactly len(src) elements or one the guards show to be no shorter, so a short buffer is an error and never a silent truncation. " +
-			"S8: the varint decoder rejects only on exhausted input (position == len(buf), an empty cursor, or a not-found count of a scan that ran to len(buf)) or on a counter guard that cannot fire while groups an encoder can produce are still to be read (threshold reasoning on the induction variables). S9: a fixed-width coder refuses a buffer only when it is shorter than the N bytes it codes (a buffer of exactly N bytes - what the encoder produced - is accepted).",
+			"S8: the varint decoder rejects only on exhausted input (position == len(buf), an empty cursor, or a not-found count of a scan that ran to len(buf)) or on a counter guard that cannot fire while groups an encoder can produce are still to be read (threshold reasoning on the induction variables). S9: a fixed-width coder refuses a buffer only when it is shorter than the N bytes it codes (a buffer of exactly N bytes - what the encoder produced - is accepted). " +
+			"S10: in every function of the codec package, the error of every emission (a Write on the destination io.Writer, or a call of a package function that transitively does one and reports an error) reaches the caller: on every path from the emission to a return the emission's error is known to be nil, or the returned error is that very error, or it is known to be non-nil (decided per path, phi operands and result variables resolved by the path); an emission whose error is never read is violated. " +
+			"S11: a scratch region that is released to shared storage ((*sync.Pool).Put, a channel send, directly or through a private function that does so with its parameter) is not used afterwards - no path from the release to an instruction that uses the region or an alias of it (window, pointer, element address) other than through the instruction that obtains a region anew; a deferred release counts at the return.",
 		NotDecided: "the round-trip equality decode(encode(x))=x as a value statement; the shift/or arithmetic inside the loops.",
 	})
 	register(&Check{
@@ -973,6 +975,8 @@ func runC15(c *Ctx) {
 	c.oneEncoder()
 	c.independentCopy()
 	c.tightSizeGuards()
+	c.writerErrorsReported()
+	c.scratchNotTouchedAfterRelease()
 	// S7 short buffer is an error
 	handedTo := map[*ssa.Parameter]bool{}
 	for _, fn := range xbinaryFuncs(c, "Marshal") {
